@@ -80,6 +80,11 @@ func deepCopy(v reflect.Value) interface{} {
 		if v.IsNil() {
 			return reflect.Zero(v.Type()).Interface()
 		}
+		if v.Type().Elem().Kind() == reflect.Uint8 {
+			n := reflect.MakeSlice(v.Type(), v.Len(), v.Len())
+			reflect.Copy(n, v)
+			return n.Interface()
+		}
 		n := reflect.MakeSlice(v.Type(), v.Len(), v.Len())
 		for i := 0; i < v.Len(); i++ {
 			n.Index(i).Set(reflect.ValueOf(deepCopy(v.Index(i))))
